@@ -379,7 +379,10 @@ impl<'a> Lexer<'a> {
         start_idx: usize,
     ) -> TokenValue<'a> {
         let mut iter = self.s[self.l..self.u].chars();
-        let mut n = initial_value;
+        // The integer part is accumulated in 64 bits and capped, so that no input can overflow it.
+        // Range checks are performed when the number is complete.
+        const CAP: i64 = 1 << 40;
+        let mut n: i64 = initial_value.into();
         let mut parsing_n = true;
         let mut d = [0_u8; 17];
         let mut next_d = 0_usize;
@@ -388,8 +391,7 @@ impl<'a> Lexer<'a> {
                 Some(c @ '0'..='9') => {
                     let i = (c as i32) - ('0' as i32);
                     if parsing_n {
-                        n = n.checked_mul(10).unwrap();
-                        n = n.checked_add(i).unwrap();
+                        n = (n * 10 + i64::from(i)).min(CAP);
                     } else {
                         if let Some(d) = d.get_mut(next_d) {
                             *d = i.try_into().expect("i in [0,9]")
@@ -418,21 +420,33 @@ impl<'a> Lexer<'a> {
                         self.l += n.len_utf8();
                     }
 
-                    let mut s = common::Scaled::from_decimal_digits(&d) + common::Scaled::ONE * n;
-                    if negative {
-                        s.0 *= -1;
-                    }
+                    let number = Str {
+                        value: self.s,
+                        start: start_idx,
+                        end: self.l,
+                    };
+                    let fraction = common::Scaled::from_decimal_digits(&d);
                     let raw_unit = &self.s[u..self.l];
                     if let Some(unit) = common::ScaledUnit::parse(raw_unit) {
-                        let mut s =
-                            common::Scaled::new(n, common::Scaled::from_decimal_digits(&d), unit)
-                                .unwrap();
-                        if negative {
-                            s = -s;
-                        }
-                        return TokenValue::Scaled(s);
+                        let s = i32::try_from(n)
+                            .ok()
+                            .and_then(|n| common::Scaled::new(n, fraction, unit).ok());
+                        let Some(s) = s else {
+                            self.errs.add(Error::NumberTooBig { number });
+                            return TokenValue::Scaled(common::Scaled::ZERO);
+                        };
+                        return TokenValue::Scaled(if negative { -s } else { s });
                     }
                     if let Some(glue_order) = common::GlueOrder::parse(raw_unit) {
+                        let s = i32::try_from(n)
+                            .ok()
+                            .and_then(|n| n.checked_mul(common::Scaled::ONE.0))
+                            .and_then(|n| n.checked_add(fraction.0));
+                        let Some(s) = s else {
+                            self.errs.add(Error::NumberTooBig { number });
+                            return TokenValue::InfiniteGlue(common::Scaled::ZERO, glue_order);
+                        };
+                        let s = common::Scaled(if negative { -s } else { s });
                         return TokenValue::InfiniteGlue(s, glue_order);
                     }
                     self.errs.add(Error::InvalidDimensionUnit {
@@ -463,6 +477,16 @@ impl<'a> Lexer<'a> {
                     if negative {
                         n *= -1;
                     }
+                    let Ok(n) = i32::try_from(n) else {
+                        self.errs.add(Error::NumberTooBig {
+                            number: Str {
+                                value: self.s,
+                                start: start_idx,
+                                end: self.l,
+                            },
+                        });
+                        return TokenValue::Integer(0);
+                    };
                     return TokenValue::Integer(n);
                 }
             }
